@@ -72,6 +72,10 @@ def r1_refusals(P, rep, ctx):
               message="merge_files can create the target although the source has an uncommitted patch (refusal missing or placed after the effect)")
     eo = [n.idx for n in g.nodes if any(call_attr(c) == "_expect_open" for c in g.calls(n.idx))]
     rep.check(bool(eo) and all(g.every_path_passes(eo, w) for w in withs), "C05.R1", fi.qual, "merge requires an open record", fi.loc(), construct="_expect_open before target creation", message="merge_files does not check _expect_open before creating the target")
+    if f"{MF}.merge_files" not in P.functions:
+        # no override: the merge of the manifest record is the plain IH5Record.merge_files, which knows nothing about stubs
+        rep.fail("C05.R1", f"{MF}", "stub refusal before super().merge_files", "IH5MFRecord no longer overrides merge_files: nothing refuses a file set that contains a stub before the merged container (and its manifest) are written; a refusal inside a later hook leaves the merged files behind", P.module("ih5.manifest").relpath)
+        return
     fi = P.func(f"{MF}.merge_files")
     f = F(ctx, fi)
     sup = f.calls("super().merge_files(___)")
@@ -142,7 +146,7 @@ SELF_STATE = ("self._ublocks", "self.__files__", "self._manifest", "self._files"
 
 
 def r2_frame(P, rep, ctx):
-    funcs = [P.func(f"{R}.merge_files"), P.func(f"{R}._fixes_after_merge"), P.func(f"{MF}._fixes_after_merge"), P.func(f"{MF}.merge_files")]
+    funcs = [P.func(f"{R}.merge_files"), P.func(f"{R}._fixes_after_merge"), P.func(f"{MF}._fixes_after_merge")] + ([P.func(f"{MF}.merge_files")] if f"{MF}.merge_files" in P.functions else [])
     for q in P.subclasses(R):
         for m in ("_fixes_after_merge", "merge_files"):
             f = P.classes[q].methods.get(m)
